@@ -33,7 +33,7 @@ func maxInt8(a, b int8) int8 {
 
 // Returns a slice of the same length (big endian)
 // except incremented by one.
-// Appends 0x00 if bz is all 0xFF.
+// Returns nil on overflow (bz is all 0xFF: no key of this length follows it).
 // CONTRACT: len(bz) > 0
 func cpIncr(bz []byte) (ret []byte) {
 	ret = cp(bz)
@@ -44,7 +44,8 @@ func cpIncr(bz []byte) (ret []byte) {
 		}
 		ret[i] = byte(0x00)
 		if i == 0 {
-			return append(ret, 0x00)
+			// overflow: bz is all 0xFF, no key of this length follows it (nil = unbounded)
+			return nil
 		}
 	}
 	return []byte{0x00}
